@@ -255,6 +255,8 @@ def symbolic_comprehension(ex, elt, gens, node):
         ex.spec_mode -= 1
         ex.scope = saved_scope
         reqs, ex.quant_reqs = ex.quant_reqs, saved_reqs
+    # definitional facts / type invariants stated about the generic element while the body was evaluated
+    elem_defs = [f for f in ex.pc[n0:] if id(f) in ex.def_ids]
     del ex.pc[n0:]
     if reqs and saved_reqs is None and not ex.quant:
         # the comprehension raises iff the requirement fails for some element that is evaluated (elements filtered
@@ -262,7 +264,7 @@ def symbolic_comprehension(ex, elt, gens, node):
         qi = z3.Int(ex.fresh_name('qi'))
         guard = z3.And(*[zbool(c) if not isinstance(c, bool) else z3.BoolVal(c) for c in conds]) if conds else z3.BoolVal(True)
         allreq = z3.And(*[r[0] for r in reqs])
-        body_ok = z3.substitute(z3.Implies(guard, allreq), (e, seq.t[qi]))
+        body_ok = z3.substitute(z3.Implies(z3.And(guard, *elem_defs), allreq), (e, seq.t[qi]))
         every = z3.ForAll([qi], z3.Implies(z3.And(qi >= 0, qi < z3.Length(seq.t)), body_ok))
         if ex.decide([every, z3.Not(every)], 'comprehension element requirement') == 1:
             from .engine import PyExc
